@@ -1,6 +1,5 @@
 /-
-  Proofs/WaitNQInv.lean — the queue invariant holds in every reachable state in which defect F3 has
-  not struck (`s.f3 = false`).
+  Proofs/WaitNQInv.lean — the queue invariant holds in every reachable state.
 -/
 import NsyncVerif.Proofs.WaitNQStep8
 
@@ -8,79 +7,6 @@ set_option linter.unusedSimpArgs false
 set_option linter.unusedVariables false
 
 namespace WaitN
-
-theorem f3_bindSem {s s' : State} {o : Tid} {j : SemId} (h : bindSem s o j = some s') : s'.f3 = s.f3 := by
-  unfold bindSem at h; split_ok h; all_goals (cases h; try rfl)
-theorem f3_postSem {s s' : State} {r : Rid} {j : SemId} (h : postSem s r j = some s') : s'.f3 = s.f3 := by
-  unfold postSem at h; split at h
-  · exact f3_bindSem h
-  · cases h; rfl
-theorem f3_unbindSem (s : State) (t : Tid) : (unbindSem s t).f3 = s.f3 := by
-  unfold unbindSem; split <;> rfl
-theorem f3_dflt {s s' : State} {t : Tid} {e : Ev} (h : dflt s t e = .ok s') : s'.f3 = s.f3 := by
-  unfold dflt at h; split_ok h; all_goals (cases h; try rfl)
-theorem f3_rtDone {s s' : State} {t : Tid} {u : Use} {i : Nat} {time : Deadline} (h : rtDone s t u i time = .ok s') :
-    s'.f3 = s.f3 := by
-  unfold rtDone at h; split_ok h; all_goals (cases h; try rfl)
-theorem f3_deqDone {s s' : State} {t : Tid} {j : Nat} {res : Bool} (h : deqDone s t j res = .ok s') : s'.f3 = s.f3 := by
-  unfold deqDone at h; dsimp only at h; split at h
-  · cases h; rfl
-  · cases h; exact f3_unbindSem _ _
-theorem f3_afterEnq {s s' : State} {t : Tid} {i : Nat} {res : Bool} (h : afterEnq s t i res = .ok s') : s'.f3 = s.f3 := by
-  unfold afterEnq at h; cases h; rfl
-theorem f3_spinAcq {s s' : State} {t : Tid} {c : Nat} {st : SpinSt} {mk : SpinSt → PC} {done : PC} {e : Ev}
-    (h : spinAcq s t c st mk done e = .ok s') : s'.f3 = s.f3 := by
-  unfold spinAcq at h; split_ok h
-  all_goals first | exact f3_dflt h | (cases h; rfl)
-
-macro "f3_leaf" h:ident : tactic =>
-  `(tactic| first
-    | exact f3_dflt $h
-    | exact f3_rtDone $h
-    | exact f3_deqDone $h
-    | exact f3_afterEnq $h
-    | exact f3_spinAcq $h
-    | (cases $h:ident; first
-        | rfl
-        | (simp only [setPc_f3, setPost_f3, setSem_f3, setMc_f3, setObj_f3, setRec_f3, setFr_f3, kill_f3, ownerRemove_f3]
-           first | exact f3_postSem ‹postSem _ _ _ = some _› | exact f3_bindSem ‹bindSem _ _ _ = some _›)
-        | (unfold startScan; rfl)))
-
-theorem f3_proto {s s' : State} {t : Tid} {e : Ev} (h : proto s t e = .ok s') : s'.f3 = s.f3 := by
-  unfold proto at h; split_ok h <;> f3_leaf h
-theorem f3_stepOpen {s s' : State} {t : Tid} {e : Ev} (h : stepOpen s t e = .ok s') : s'.f3 = s.f3 := by
-  unfold stepOpen at h; split_ok h <;> first | exact f3_proto h | f3_leaf h
-
-/-- the flag only ever goes from false to true -/
-theorem f3_mono {s s' : State} {t : Tid} {e : Ev} (h : stepThr s t e = .ok s') (hf : s'.f3 = false) : s.f3 = false := by
-  have key : s'.f3 = s.f3 ∨ s.f3 = false := by
-    unfold stepThr at h
-    split at h
-    · unfold stepIdle at h; split_ok h <;> first | exact .inl (f3_stepOpen h) | exact .inl (by f3_leaf h)
-    · simp at h
-    · unfold stepSg at h; split_ok h <;> exact .inl (by f3_leaf h)
-    · unfold stepCtrRT at h; split_ok h <;> first | exact .inl (by f3_leaf h) | (left; have := f3_rtDone h; simpa using this)
-    · unfold stepND at h; split_ok h <;> first | exact .inl (f3_stepOpen h) | exact .inl (by f3_leaf h)
-    · unfold stepEnqCv at h; split_ok h <;> first | exact .inl (by f3_leaf h) | (left; have := f3_afterEnq h; simpa using this)
-    · unfold stepEnq at h; split_ok h <;> exact .inl (by f3_leaf h)
-    · unfold stepDeqCv at h; split_ok h
-      all_goals first
-        | exact .inl (by f3_leaf h)
-        | (left; have := f3_deqDone h; simpa using this)
-        | (cases h; simp only [setPc_f3] at hf ⊢; right; simp only [Bool.or_eq_false_iff] at hf; exact hf.1)
-    · unfold stepDeq at h; split_ok h <;> exact .inl (by f3_leaf h)
-    · unfold stepAlloc at h; split_ok h <;> exact .inl (by f3_leaf h)
-    · unfold stepInit at h; split_ok h <;> exact .inl (by f3_leaf h)
-    · unfold stepUnlockMu at h; split_ok h <;> exact .inl (by f3_leaf h)
-    · unfold stepCvRT at h; split_ok h <;> exact .inl (by f3_leaf h)
-    · unfold stepPdEnter at h; split_ok h <;> exact .inl (by f3_leaf h)
-    · unfold stepPdWait at h; split_ok h <;> exact .inl (by f3_leaf h)
-    · unfold stepFree at h; split_ok h <;> exact .inl (by f3_leaf h)
-    · unfold stepRelock at h; split_ok h <;> exact .inl (by f3_leaf h)
-    · unfold stepRet at h; split_ok h <;> exact .inl (by f3_leaf h)
-  rcases key with k | k
-  · rw [← k]; exact hf
-  · exact k
 
 theorem qi_init_state : QI init := by
   constructor
@@ -100,7 +26,7 @@ theorem qi_init_state : QI init := by
 theorem cf_init_state (t : Tid) : CF init t := cf_notInCall (by simp [init, inCall])
 
 /-- own step: dispatch over the program counter -/
-theorem qcf_stepThr {s s' : State} {t : Tid} {e : Ev} (c : QCtx s t) (hnodup : RecsNodup s) (hf3 : s'.f3 = false)
+theorem qcf_stepThr {s s' : State} {t : Tid} {e : Ev} (c : QCtx s t) (hnodup : RecsNodup s)
     (h : stepThr s t e = .ok s') : QI s' ∧ CF s' t := by
   unfold stepThr at h
   split at h <;> rename_i hpc
@@ -111,7 +37,7 @@ theorem qcf_stepThr {s s' : State} {t : Tid} {e : Ev} (c : QCtx s t) (hnodup : R
   · exact qcf_stepND c hpc h
   · exact qcf_stepEnqCv c hpc h
   · exact qcf_stepEnq c hpc h
-  · exact qcf_stepDeqCv c hnodup hf3 hpc h
+  · exact qcf_stepDeqCv c hnodup hpc h
   · exact qcf_stepDeq c hnodup hpc h
   · exact qcf_stepAlloc c hpc h
   · exact qcf_stepInit c hpc h
@@ -123,28 +49,25 @@ theorem qcf_stepThr {s s' : State} {t : Tid} {e : Ev} (c : QCtx s t) (hnodup : R
   · exact qcf_stepRelock c hpc h
   · exact qcf_stepRet c hpc h
 
-/-- in every reachable state in which no cv_dequeue has hit the window of defect F3, every waiter record
-    is accounted for -/
-theorem qinv_of_reachable {s : State} (h : Reachable s) : s.f3 = false → QInv s := by
-  refine reachable_induction (P := fun s => s.f3 = false → QInv s) ?_ ?_ h
-  · intro _; exact ⟨qi_init_state, cf_init_state⟩
-  · intro s s' e hr ih hs hf3
+/-- in every reachable state every waiter record is accounted for -/
+theorem qinv_of_reachable {s : State} (h : Reachable s) : QInv s := by
+  refine reachable_induction (P := QInv) ?_ ?_ h
+  · exact ⟨qi_init_state, cf_init_state⟩
+  · intro s s' e hr q hs
     cases e with
     | tick ns =>
       simp only [step] at hs
       split at hs
       · cases hs
-        have q := ih hf3
         exact ⟨qi_transfer q.qi rfl rfl rfl (fun _ => rfl) q.qi.q6 q.qi.q11,
                fun t => cf_congr (q.cf t) rfl (frSame_refl _) rfl rfl⟩
       · simp at hs
     | thr u ev =>
       simp only [step] at hs
-      have q := ih (f3_mono hs hf3)
       have hown := own_of_reachable hr
       have hkn := known_of_reachable hr
       have hl := linv_of_reachable hr
-      have hown' := qcf_stepThr ⟨hown, hkn, hl, q.qi, q.cf u⟩ (recsNodup_of_reachable hr) hf3 hs
+      have hown' := qcf_stepThr ⟨hown, hkn, hl, q.qi, q.cf u⟩ (recsNodup_of_reachable hr) hs
       refine ⟨hown'.1, fun t => ?_⟩
       by_cases ht : t = u
       · subst ht; exact hown'.2
